@@ -5,7 +5,7 @@ ever visible under a final name.
 R1  TLC exhaustive: FsProtocol.tla with Kill/Restart enabled between any two system calls of the publish protocols
     (MC_FsProtocol_kill*.cfg): NoPartialFinalName, AckedRestorable.
 R2  kill points = every file-system-mutating system call of the real process in the scenarios of the catalogue
-    (S1 S3 S4 S5 S6 S7 S9; quick: S1 S3 S5 S7 S9, every 7th call + all within +-3 of a rename/unlink): a reference run
+    (S1 S3 S4 S5 S6 S7 S9; quick: S1 S3 S5 S7 S9, every 7th call + all within +-3 of a rename/unlink or of a call that creates/writes a file directly under a final name): a reference run
     under the ptrace supervisor (harness/cmd/killsup) counts them; for each i the child (harness/cmd/scen) is run
     again and the whole process tree is killed immediately BEFORE call i.
 R3  a fresh process inspects the directories (every final-named *.ltx decodes, restore output / sidecar complete,
@@ -151,7 +151,12 @@ def choose(calls, tier, seed):
     cand = [c for c in calls if c["op"] != "setup" and not c["failed"]]
     if tier == "thorough":
         return [c["idx"] for c in cand]
-    hot = [c["idx"] for c in cand if c["name"].startswith("rename") or c["name"].startswith("unlink")]
+    def final_name(path):   # a file under a name that readers trust: *.ltx, *-txid, the restore output - not *.tmp
+        b = os.path.basename(path)
+        return (b.endswith(".ltx") or b.endswith("-txid") or b.endswith("restored.db") or b.endswith("out.db")) and not b.endswith(".tmp")
+    # kills around every rename/unlink, and around every call that creates or writes a file directly under a final name
+    hot = [c["idx"] for c in cand if c["name"].startswith("rename") or c["name"].startswith("unlink")
+           or (c["name"] not in ("fsync", "fdatasync", "utimensat") and any(final_name(x) for x in c["paths"]))]
     sel = set()
     for k, c in enumerate(cand):
         if (k + seed) % 7 == 0 or any(abs(c["idx"] - h) <= 3 for h in hot):
